@@ -79,5 +79,67 @@ Qed.
 
 Lemma c04_hist_once init steps : c04_hist_check (Hist init steps) = [] -> NoDup (reward_claims steps).
 Proof.
-  unfold c04_hist_check. intros H. apply app_nil_both in H. destruct H as [_ H]. apply spec_if_nil in H. apply nodup_pairs_sound. exact H.
+  unfold c04_hist_check. intros H. apply app_nil_both in H. destruct H as [_ H]. apply app_nil_both in H. destruct H as [_ H].
+  apply spec_if_nil in H. apply nodup_pairs_sound. exact H.
 Qed.
+
+(* what was paid as voter rewards of a dispute never exceeds the pot of that dispute *)
+Lemma c04_hist_pots init steps :
+  c04_hist_check (Hist init steps) = [] ->
+  forall id pot paid, In (id, pot, paid) (reward_payments init steps) -> paid_for id (reward_payments init steps) <= pot.
+Proof.
+  unfold c04_hist_check. intros H id pot paid Hin. apply app_nil_both in H. destruct H as [_ H]. apply app_nil_both in H. destruct H as [H _].
+  apply spec_if_nil in H. unfold pots_respected in H. rewrite forallb_forall in H. specialize (H _ Hin). cbn [fst snd] in H.
+  apply Z.leb_le in H. exact H.
+Qed.
+
+(* a deposit claim leaves the bridge account as it was *)
+Lemma c04_step_sound_claim_deposit before signer res params after decs :
+  c04_step before (Step "ClaimDeposits" signer res params after decs) = [] -> sp_bridge after = sp_bridge before.
+Proof.
+  unfold c04_step. cbn [st_result st_op st_after st_params String.eqb Ascii.eqb Bool.eqb andb Z.eqb]. intros H. nil_all. assumption.
+Qed.
+
+(* ---- C03 on histories -------------------------------------------------------------------------------------- *)
+Lemma nodupZ_sound l : nodupZ l = true -> NoDup l.
+Proof.
+  induction l as [|x t IH]; cbn [nodupZ]; intros H; [constructor|].
+  apply andb_prop in H. destruct H as [H1 H2]. constructor; [|apply IH; exact H2].
+  intros Hin. apply negb_true_iff in H1. assert (existsb (Z.eqb x) t = true); [|congruence].
+  apply existsb_exists. exists x. split; [exact Hin|apply Z.eqb_refl].
+Qed.
+
+(* every dispute is executed (and its burn taken) at most once in a history *)
+Lemma c03_hist_executed_once init steps : c03_hist_check (Hist init steps) = [] -> NoDup (executed_ids steps).
+Proof.
+  unfold c03_hist_check. intros H. apply app_nil_both in H. destruct H as [_ H]. apply app_nil_both in H. destruct H as [_ H].
+  apply spec_if_nil in H. apply nodupZ_sound. exact H.
+Qed.
+
+(* the sum of all balances is the recorded supply after every step, and a step with a pinned delta has it *)
+Lemma c03_step_sound before s d :
+  c03_step before s = [] ->
+  sp_balsum (st_after s) = sp_supply (st_after s) /\ (expected_supply_delta s = Some d -> sp_supply (st_after s) - sp_supply before = d).
+Proof.
+  unfold c03_step. intros H. apply app_nil_both in H. destruct H as [H1 H2]. apply spec_if_nil in H1. apply Z.eqb_eq in H1.
+  split; [exact H1|]. intros E. rewrite E in H2. apply spec_if_nil in H2. apply Z.eqb_eq in H2. exact H2.
+Qed.
+
+(* a completed begin blocker changes the supply by exactly the block provision minus the documented burn of each
+   dispute it executed, none of which is a superseded round; the provision is split 3/4 : 1/4 *)
+Lemma c03_step_sound_begin_block before signer params after decs :
+  c03_step before (Step "BeginBlock" signer 0 params after decs) = [] ->
+  let s := Step "BeginBlock" signer 0 params after decs in
+  sp_supply after - sp_supply before = begin_block_mint s - zsum (map dispute_burn (begin_block_executed s)) /\ (forall id b f, In (id, b, f) (begin_block_executed s) -> Z.testbit f 1 = false) /\ sp_tbr after - sp_tbr before = begin_block_mint s - Z.quot (begin_block_mint s) 4 /\ sp_feecoll after - sp_feecoll before = Z.quot (begin_block_mint s) 4.
+Proof.
+  intros H s. unfold c03_step in H. fold s in H.
+  assert (E : expected_supply_delta s = None) by reflexivity. rewrite E in H.
+  assert (Eo : (st_op s =? "BeginBlock")%string = true) by reflexivity. rewrite Eo in H.
+  assert (Er : (st_result s =? 0) = true) by reflexivity. rewrite Er in H.
+  change (st_after s) with after in H.
+  nil_all.
+  repeat split; try assumption.
+  intros id b f Hin.
+  match goal with Hx : forallb _ _ = true |- _ => rewrite forallb_forall in Hx; specialize (Hx _ Hin); cbn [snd] in Hx; apply negb_true_iff in Hx; exact Hx end.
+Qed.
+
